@@ -51,8 +51,22 @@ with file:line):
              operation that can raise other than subscripts of a trie cursor, no
              `while`, no call, and stores nothing the HANDLER reads.
   layout     as in translate_detect.py.
+  keyboard_walk.py only (class FT3, see its docstring): layouts (the value of a
+             zero-argument function that returns a dict literal of one-character rows),
+             lists of layouts, lists of characters, records (dict literals with the constant
+             keys 'row','pos' / 'past_row','past_pos','cur_row','cur_pos' and int values),
+             dicts from strings to such records ({} , d[k] = r, d[k], k in d, d.copy(),
+             list(d), for k in d, for k, v in d.items(), d.pop(k, None)), [x for x in l if c],
+             f(args) in an expression for a function translated before (defaults filled in;
+             recursion with fuel), `x is None` of a variable that is never None (False: the
+             guarded branch is dead code and is not translated), a trailing
+             `if __name__ == "__main__":` block (not looked at).
 
-Not modelled, beyond what translate_detect.py lists: dict objects other than the trie
+Not modelled, beyond what translate_detect.py lists: the order of a dict other than its
+insertion order (the code iterates dicts in insertion order, as Python does); a `[]` that
+is later replaced by a dict is read as the empty dict (it is only tested for emptiness
+before); the third result of detect_keyboard_walk (detected_keyboards) is translated but
+no theorem is about it; dict objects other than the trie
 nodes; the insertion order of a trie node (never iterated); which exception is raised
 except KeyError inside `try`; the assumption that str.lower() of one character is never
 the 5-character string "count" (DetectRt2.t_step_s); the MultiWordDetector methods are
